@@ -490,7 +490,7 @@ Proof. destruct c. unfold grow. simpl. rewrite !app_nil_r. reflexivity. Qed.
 Lemma add_super_sequence_inv c ctr name items len c' ctr' : INV c ctr ->
   add_super_sequence c ctr name items len = OK (c', ctr') -> INV c' ctr'.
 Proof. intros [W W2 F] H. unfold add_super_sequence in H. destruct (is_anon name) eqn:HN; [discriminate|].
-  destruct (seq_defined c name) eqn:D; [discriminate|].
+  destruct (seq_defined c name) eqn:D; [discriminate|]. destruct (ahas (c_structs c) name); [discriminate|].
   destruct (clean_const c items) as [const|] eqn:CC; [|discriminate]. cbn [bind] in H.
   destruct (build_super c ctr const len) as [[[s anons] ctr1]|] eqn:BS; [|discriminate]. cbn [bind] in H.
   injection H as H1 H2. subst c' ctr'.
@@ -545,7 +545,7 @@ Proof. intros E2 E3 F k Hk. rewrite E2, E3. apply (F k Hk). Qed.
 
 Lemma add_sequence_inv c ctr name ps len c' : INV c ctr ->
   add_sequence c name ps len = OK c' -> INV c' ctr.
-Proof. intros [W W2 F] H. unfold add_sequence in H. destruct (is_anon name) eqn:HN; [discriminate|]. destruct (seq_defined c name) eqn:D; [discriminate|].
+Proof. intros [W W2 F] H. unfold add_sequence in H. destruct (is_anon name) eqn:HN; [discriminate|]. destruct (seq_defined c name) eqn:D; [discriminate|]. destruct (ahas (c_structs c) name); [discriminate|].
   destruct (get_length_const len ps) as [l k| |k] eqn:G; try discriminate. injection H as H. subst c'.
   set (b := {| b_len := l; b_const := k; b_anon := false |}).
   assert (EQ : set_bases c (c_bases c ++ [(name, b)]) = grow c [(name, b)] [] []).
@@ -576,7 +576,7 @@ Proof. intros H. rewrite forallb_forall in *. intros x Hx. rewrite ahas_app, (H 
 
 Lemma add_structure_inv c ctr opt name names domain s0 c' : INV c ctr -> balanced s0 = true ->
   add_structure c opt name names domain s0 = OK c' -> INV c' ctr.
-Proof. intros [W W2 F] HB H. unfold add_structure in H. destruct (ahas (c_structs c) name) eqn:D; [discriminate|].
+Proof. intros [W W2 F] HB H. unfold add_structure in H. destruct (ahas (c_structs c) name) eqn:D; [discriminate|]. destruct (is_anon name); [discriminate|]. destruct (seq_defined c name); [discriminate|].
   destruct (find_strands c names) as [ts|] eqn:FS; [|discriminate]. cbn [bind] in H.
   match type of H with (do s <- ?e; _) = _ => destruct e as [s|] eqn:DE; [|discriminate] end. cbn [bind] in H.
   destruct (structure_ok s _) eqn:SO; [|discriminate]. injection H as H. subst c'.
